@@ -233,7 +233,8 @@ theorem read_step {P : Prims} (hdec : ∀ k b, (P.aesDec k b).length = 16) (r : 
     (want : Nat) (hv : Valid r) (hd : denote P r = .ok x) (hw : 0 < want) :
     ∃ out eof r', r.read P want = .ok (out, eof, r') ∧
       (eof = true → x = [] ∧ out = []) ∧
-      (eof = false → Valid r' ∧ ∃ x', denote P r' = .ok x' ∧ x = out ++ x' ∧ measure r' x' < measure r x) := by
+      (eof = false → Valid r' ∧ ∃ x', denote P r' = .ok x' ∧ x = out ++ x' ∧ measure r' x' < measure r x) ∧
+      (eof = false → out ≠ []) := by
   obtain ⟨hiv, hv⟩ := hv
   by_cases hready : r.ready.isEmpty = true
   · have hr0 : r.ready = [] := by simpa using hready
@@ -242,7 +243,7 @@ theorem read_step {P : Prims} (hdec : ∀ k b, (P.aesDec k b).length = 16) (r : 
       -- everything was delivered
       simp only [hsrc] at hv
       simp only [denote, hsrc, hr0, Except.ok.injEq] at hd
-      refine ⟨[], true, { r with reserved := [], src := none }, ?_, fun _ => ⟨hd.symm, rfl⟩, by simp⟩
+      refine ⟨[], true, { r with reserved := [], src := none }, ?_, fun _ => ⟨hd.symm, rfl⟩, by simp, by simp⟩
       unfold DecR.read
       simp [hready, hsrc, hv, fill_none]
     | some s =>
@@ -262,17 +263,26 @@ theorem read_step {P : Prims} (hdec : ∀ k b, (P.aesDec k b).length = 16) (r : 
           subst hd
           have hk : r.reserved.length + s.rest.length - (r.reserved.length + s.rest.length) % 16 =
               r.reserved.length + s.rest.length := by omega
+          have hlt : ¬ (r.reserved.length + s.rest.length < 16) := by omega
+          have htk : (r.reserved ++ s.rest).take (r.reserved.length + s.rest.length) = r.reserved ++ s.rest :=
+            List.take_of_length_le (by simp)
+          have hdr : (r.reserved ++ s.rest).drop (r.reserved.length + s.rest.length) = [] :=
+            List.drop_of_length_le (by simp)
+          by_cases hempty : un.isEmpty = true
+          · -- only padding was left: end of data at once, not a read of nothing
+            have hun0 : un = [] := by simpa using hempty
+            refine ⟨[], true,
+              { r with iv := (cbcDecBlocks P r.key ((r.reserved.length + s.rest.length) / 16) r.iv (r.reserved ++ s.rest)).2,
+                       reserved := [], ready := [], src := none }, ?_, fun _ => ⟨hun0, rfl⟩, by simp, by simp⟩
+            unfold DecR.read
+            simp only [hready, ↓reduceIte, hsrc, hfill, List.length_append, hlt, Option.isSome_none,
+              Bool.false_eq_true, Option.isNone_none, hk, htk, hdr, hun, hempty]
           refine ⟨un.take want, false,
             { r with iv := (cbcDecBlocks P r.key ((r.reserved.length + s.rest.length) / 16) r.iv (r.reserved ++ s.rest)).2,
-                     reserved := [], ready := un.drop want, src := none }, ?_, by simp, fun _ => ?_⟩
+                     reserved := [], ready := un.drop want, src := none }, ?_, by simp, fun _ => ?_, fun _ => ?_⟩
           · unfold DecR.read
-            have hlt : ¬ (r.reserved.length + s.rest.length < 16) := by omega
-            have htk : (r.reserved ++ s.rest).take (r.reserved.length + s.rest.length) = r.reserved ++ s.rest :=
-              List.take_of_length_le (by simp)
-            have hdr : (r.reserved ++ s.rest).drop (r.reserved.length + s.rest.length) = [] :=
-              List.drop_of_length_le (by simp)
             simp only [hready, ↓reduceIte, hsrc, hfill, List.length_append, hlt, Option.isSome_none,
-              Bool.false_eq_true, Option.isNone_none, hk, htk, hdr, hun]
+              Bool.false_eq_true, Option.isNone_none, hk, htk, hdr, hun, hempty]
           · have hl := cbcDecBlocks_length hdec r.key ((r.reserved.length + s.rest.length) / 16) r.iv
               (r.reserved ++ s.rest) hiv (by simp; omega)
             refine ⟨⟨?_, rfl⟩, un.drop want, rfl, (List.take_append_drop want un).symm, ?_⟩
@@ -282,6 +292,12 @@ theorem read_step {P : Prims} (hdec : ∀ k b, (P.aesDec k b).length = 16) (r : 
             · simp only [measure, hsrc, Option.isSome_some, ↓reduceIte, Option.isSome_none, Bool.false_eq_true,
                 List.length_drop]
               omega
+          · intro h0
+            have hne : un ≠ [] := by simpa using hempty
+            have := congrArg List.length h0
+            have hpos : 0 < un.length := List.length_pos_iff.mpr hne
+            rw [List.length_take, List.length_nil] at this
+            omega
       · -- the source goes on: one block is decrypted, the rest stays reserved
         obtain ⟨buf, hbuf⟩ : ∃ b, b = r.reserved ++ s.rest.take t := ⟨_, rfl⟩
         rw [← hbuf] at hfill
@@ -310,7 +326,10 @@ theorem read_step {P : Prims} (hdec : ∀ k b, (P.aesDec k b).length = 16) (r : 
           subst hd
           refine ⟨d.1.take want, false,
             { r with iv := d.2, reserved := buf.drop 16, ready := d.1.drop want, src := some s' }, ?_, by simp,
-            fun _ => ?_⟩
+            fun _ => ?_, fun _ h0 => by
+              have := congrArg List.length h0
+              rw [List.length_take, List.length_nil, hdl] at this
+              omega⟩
           · unfold DecR.read
             have hlt : ¬ (buf.length < 16) := by omega
             have hl16 : buf.length - 1 - (buf.length - 1) % 16 = 16 := by omega
@@ -327,7 +346,11 @@ theorem read_step {P : Prims} (hdec : ∀ k b, (P.aesDec k b).length = 16) (r : 
   · -- bytes from the last refill are still there
     have hne : r.ready ≠ [] := by simpa using hready
     have hpos : 0 < r.ready.length := List.length_pos_iff.mpr hne
-    refine ⟨r.ready.take want, false, { r with ready := r.ready.drop want }, ?_, by simp, fun _ => ?_⟩
+    refine ⟨r.ready.take want, false, { r with ready := r.ready.drop want }, ?_, by simp, fun _ => ?_,
+      fun _ h0 => by
+        have := congrArg List.length h0
+        rw [List.length_take, List.length_nil] at this
+        omega⟩
     · unfold DecR.read
       simp [hready]
     · refine ⟨⟨hiv, hv⟩, ?_⟩
@@ -351,6 +374,20 @@ theorem read_step {P : Prims} (hdec : ∀ k b, (P.aesDec k b).length = 16) (r : 
           omega
 
 
+
+/-- **read_progress.**  A `Read` of the `decryptReader` with a non-empty buffer never returns
+"0 bytes, no error": it delivers at least one byte or reports the end of the data (the
+`io.Reader` contract consumers such as the XMP parser insist on; a plaintext whose length is a
+multiple of 16 ends with a block of padding only, which is where an empty read used to occur). -/
+theorem read_progress {P : Prims} (hdec : ∀ k b, (P.aesDec k b).length = 16) (r : DecR) (x : Bytes)
+    (want : Nat) (hv : Valid r) (hd : denote P r = .ok x) (hw : 0 < want)
+    (out : Bytes) (r' : DecR) (h : r.read P want = .ok (out, false, r')) : out ≠ [] := by
+  obtain ⟨out', eof', r'', hread, _, _, hp⟩ := read_step hdec r x want hv hd hw
+  rw [h] at hread
+  simp only [Except.ok.injEq, Prod.mk.injEq] at hread
+  obtain ⟨h1, h2, _⟩ := hread
+  subst h1 h2
+  exact hp rfl
 
 /-! ## reading to the end -/
 
@@ -378,7 +415,7 @@ theorem readAll_spec {P : Prims} (hdec : ∀ k b, (P.aesDec k b).length = 16) :
       cases wants with
       | nil => exact hdf
       | cons w ws => exact hw w (by simp)
-    obtain ⟨out, eof, r', hread, heof, hgo⟩ := read_step hdec r x _ hv hd hwant
+    obtain ⟨out, eof, r', hread, heof, hgo, _⟩ := read_step hdec r x _ hv hd hwant
     rw [readAll_unfold, hread]
     cases eof with
     | true =>
@@ -520,6 +557,34 @@ theorem encrypt_decrypt_stream {P : Prims} (ok : PrimsOK P) (hdec : ∀ k b, (P.
             simp only
             rw [← h.1, encrypt_stream_chunking]
         · simp [hko] at h
+
+
+/-! ## which crypt filter a stream is read with; the /Encrypt entry at `Close` -/
+
+/-- **eff_selection.**  An embedded file stream is decrypted with the `/EFF` crypt filter, every
+other stream with `/StmF`; what was encrypted under the filter selected for its kind reads back,
+whatever the two filters are (Identity, RC4, AES; equal or different). -/
+theorem eff_selection {P : Prims} (ok : PrimsOK P) (hdec : ∀ k b, (P.aesDec k b).length = 16)
+    (enc : EncInfo) (embeddedFile : Bool) (num gen : Nat) (chunks : List Bytes) (rng out rng' : Bytes)
+    (sizes : List Nat) (eofWithData : Bool) (wants : List Nat) (hw : ∀ w ∈ wants, 0 < w)
+    (h : encryptStream P { enc with stmF := if embeddedFile then enc.efF else enc.stmF } num gen chunks rng
+          = .ok (out, rng')) :
+    decryptStreamFor P enc embeddedFile num gen { rest := out, sizes := sizes, eofWithData := eofWithData } wants =
+      .ok chunks.flatten :=
+  encrypt_decrypt_stream ok hdec _ num gen chunks rng out rng' sizes eofWithData wants hw h
+
+/-- `Close` writes an `/Encrypt` entry exactly when the file is encrypted, and then the one made
+together with the key -/
+theorem closeEncryptEntry_spec (d : Option Obj) (tr : List (Bytes × Obj)) :
+    ((closeEncryptEntry d tr).filter fun e => e.1 == key "Encrypt").map (·.2) = d.toList := by
+  have hrest : ((tr.filter fun e => e.1 != key "Encrypt").filter fun e => e.1 == key "Encrypt") = [] := by
+    rw [List.filter_filter]
+    apply List.filter_eq_nil_iff.mpr
+    intro e _
+    simp
+  cases d with
+  | none => simp [closeEncryptEntry, hrest]
+  | some x => simp [closeEncryptEntry, hrest]
 
 
 /-! ## non-vacuity: a reader that delivers 1, 0, 7, 16, … bytes at a time, EOF after the data -/
